@@ -194,6 +194,6 @@ def enum_paths(ctx, n):
             inner = strip_ok_wrappers(n["e"])
             ty = peel_ty(n["e"].get("ty", ""))
             a = Atom(("some(%s)" if ty.startswith("core::option::Option") else "ok(%s)") % ctx.term(inner))
-            extra = [Path(p.conds + (Not(a),), p.events, "ret", None, p.loops) for p in ok]
+            extra = [Path(p.conds + (Not(a),), p.events, "ret", "?err", p.loops) for p in ok]     # label "?err": error propagation
             paths = [Path(p.conds + (a,), p.events, p.exit, p.label, p.loops) if p.exit == "fall" else p for p in paths] + extra
     return paths
